@@ -287,6 +287,70 @@ theorem C04_float_text (cc : CharClasses) (hcc : Sane cc) (t : List Char) (f : F
   rw [← h1]
   exact (C04_float cc hcc f h2 p rest hb).1
 
+/-- **Lines as the harness writes them.** `lineHyp ty items tail` is a decidable check of the hypotheses
+of the line theorems on plain text: every item is whitespace followed by a text that the scanners accept
+as a literal for `ty` (INT: `[-+]?[0-9]+`; STRICTFLOAT: float literal with '.' or exponent; NUMBER: either;
+FLOAT: any float literal; BOOL: a spelling of the table), items are separated, the tail is whitespace.
+Whenever it holds, `Model: v*=ty;` on the line yields `litVal ty` of every literal text: the text itself
+handed to `int()` / `float()`, or the bool the spelling stands for.  The driver evaluates `lineHyp` on
+every generated line and the harness compares it with its own hypothesis predicate. -/
+theorem C04_line_checked (cc : CharClasses) (hcc : Sane cc) (ty : BaseType) (items : List (Item (List Char)))
+    (tail : List Char) (h : lineHyp ty items tail = true) :
+    tokens cc ty (litLine id items tail) = .ok (items.map (fun i => litVal ty i.lit)) := by
+  obtain ⟨hitems, hsep, htail⟩ := lineHyp_spec h
+  have key : ∀ t, litOk ty t = true →
+      (∀ p rest, NumBoundary cc rest → Reads cc ty p t rest (litVal ty t)) ∧ ∃ c t', t = c :: t' ∧ isWs c = false := by
+    intro t ht
+    cases ty with
+    | INT =>
+      obtain ⟨i, hi⟩ := litKind_one (t := t) (by simpa [litOk] using ht)
+      obtain ⟨h1, h2, _⟩ := numLit?_sound cc hcc t _ hi
+      subst h1
+      exact ⟨fun p rest hb => (C04_int_lit cc hcc i h2 p rest hb).1, numLit_head hcc _ h2⟩
+    | NUMBER =>
+      have hk : litKind t ≠ 0 := by simpa [litOk] using ht
+      obtain ⟨a, ha⟩ := litKind_ne_zero hk
+      obtain ⟨h1, h2, _⟩ := numLit?_sound cc hcc t a ha
+      refine ⟨fun p rest hb => C04_number_text cc hcc t hk p rest hb, ?_⟩
+      rw [← h1]; exact numLit_head hcc a h2
+    | STRICTFLOAT =>
+      obtain ⟨f, hf⟩ := litKind_two (t := t) (by simpa [litOk] using ht)
+      obtain ⟨h1, h2, _⟩ := numLit?_sound cc hcc t _ hf
+      subst h1
+      exact ⟨fun p rest hb => ((C04_float cc hcc f h2.1 p rest hb).2 h2.2).1, numLit_head hcc _ h2⟩
+    | FLOAT =>
+      simp only [litOk, Option.isSome_iff_exists] at ht
+      obtain ⟨f, hf⟩ := ht
+      obtain ⟨h1, h2⟩ := floatLit?_sound cc hcc t f hf
+      refine ⟨fun p rest hb => C04_float_text cc hcc t f hf p rest hb, ?_⟩
+      rw [← h1]; exact floatLit_head hcc f h2
+    | BOOL =>
+      simp only [litOk, Option.isSome_iff_exists] at ht
+      obtain ⟨b, hb'⟩ := ht
+      have hm := boolOf_mem hb'
+      refine ⟨fun p rest hb => ?_, bool_head t b hm⟩
+      have := C04_bool cc hcc t b hm p rest (fun c hc => (hb c hc).1)
+      simpa [litVal, hb'] using this
+    | STRING => simp [litOk] at ht
+  exact tokens_litLine (cc := cc) ty id (litVal ty) (NumBoundary cc) NumBoundary.nil (numBoundary_ws hcc)
+    (fun t => litOk ty t = true) (fun t ht p rest hb => (key t ht).1 p rest hb) (fun t ht => (key t ht).2)
+    items hitems hsep tail htail
+
+/-- **The scanners are exactly the literal grammars** (independent specification of `intLit?` /
+`floatLit?`, which the driver runs): a text is accepted with parse `i` / `f` iff `i` / `f` is a
+well-formed literal (ASCII digits) whose text it is. -/
+theorem C04_scanner_exact (t : List Char) :
+    (∀ i, intLit? t = some i ↔ i.text = t ∧ i.WF) ∧
+    (∀ f, floatLit? t = some f ↔ f.text = t ∧ f.WF asciiCC) :=
+  ⟨intLit?_iff t, floatLit?_iff t⟩
+
+/-- `str(z)` of every Python int is classified as an int literal by the scanner (so `C04_number_text`
+and `C04_line_checked` apply to every int the way Python prints it). -/
+theorem C04_strInt_kind (z : Int) : litKind (Py.strInt z) = 1 := by
+  have h := intLit?_complete (intLitOf z) (intLitOf_wf z)
+  rw [intLitOf_text] at h
+  simp [litKind, numLit?, h]
+
 /-! ### non-vacuity: the hypotheses are met by concrete, non-trivial instances -/
 example : Sane asciiCC := asciiCC_sane
 example : noTrailingBackslash "a\\\"b 'c' \\\\x".toList := by decide
@@ -328,5 +392,10 @@ example : tokenAt asciiCC .INT (none, "12abc".toList) = some (.int "12".toList, 
 example : litKind "-12".toList = 1 ∧ litKind "1e+22".toList = 2 ∧ litKind "-1.5E-7".toList = 2 ∧ litKind "5.".toList = 2 ∧
     litKind ".5".toList = 2 ∧ litKind "1.2.3".toList = 0 ∧ litKind "1e".toList = 0 ∧ litKind "inf".toList = 0 := by decide
 example : (floatLit? "12".toList).map FloatLit.strictB = some false := by decide
+example : lineHyp .NUMBER [⟨[' '], "-12".toList⟩, ⟨['\n', ' '], ".5".toList⟩, ⟨['\t'], "12E-5".toList⟩] ['\n'] = true := by
+  decide
+example : lineHyp .BOOL [⟨[], "true".toList⟩, ⟨[' '], "0".toList⟩] [] = true := by decide
+example : lineHyp .INT [⟨[], "1".toList⟩, ⟨[], "2".toList⟩] [] = false := by decide
+example : lineHyp .STRICTFLOAT [⟨[], "12".toList⟩] [] = false ∧ lineHyp .FLOAT [⟨[], "12".toList⟩] [] = true := by decide
 
 end BaseTypes
